@@ -74,7 +74,7 @@ def gen_dataset_cfg(rng, flavor='general', big=False):
     cfg['dtypes']['tmpl'] = rng.choice(['float32', 'float32', 'float64'])
     cfg['dtypes']['feat'] = rng.choice(['float32', 'float32', 'float64'])
     cfg['dtypes']['amps'] = rng.choice(['float64', 'float64', 'float32'])
-    cfg['dtypes']['pos'] = rng.choice(['float64', 'float64', 'float32', 'int64', 'uint16', 'uint32'])
+    cfg['dtypes']['pos'] = rng.choice(['float64', 'float64', 'float32', 'int64', 'uint16', 'uint32', 'int16'])
     cfg['dtypes']['wm'] = rng.choice(['float64', 'float64', 'float32'])
     # size outliers: hidden constants (neighbourhood 12/32, uint8/int16 id ranges, batch sizes)
     # only matter beyond the usual small sizes
@@ -94,6 +94,8 @@ def gen_dataset_cfg(rng, flavor='general', big=False):
         cfg['flat_channels'] = rng.choice([0.15, 0.4, 0.7])
     if rng.random() < 0.15:
         cfg['ks2_templates_ind'] = True
+    if rng.random() < 0.12:
+        cfg['tmpl_fortran'] = True
     for fam in ('times', 'stemplates', 'sclusters', 'amps', 'chmap'):
         if rng.random() < 0.3:
             cfg['colvec'].append(fam)
@@ -127,6 +129,7 @@ def gen_dataset_cfg(rng, flavor='general', big=False):
         cfg['raw'] = {'extra_channels': rng.choice([0, 0, 1, 3]),
                       'dtype': rng.choice(['int16', 'int16', 'float32', 'float64']),
                       'n_files': rng.choice([1, 1, 2]), 'ext': rng.choice(['.dat', '.bin']),
+                      'naming': rng.choice(['indexed', 'indexed', 'unpadded']),
                       'offset': rng.choice([0, 0, 8]),
                       'tail': rng.randint(1, 20) if rng.random() < 0.9 else rng.choice([0, -1]),
                       'permute_map': rng.random() < 0.6}
@@ -274,9 +277,10 @@ def build_gt(cfg):
     # real probes are millimetres long and need not start at x = 0
     g.pos = g.pos * float(cfg.get('pos_scale', 1)) + np.array([float(cfg.get('x_shift', 0)), 0.])
     pdt = cfg['dtypes'].get('pos', 'float64')
-    if pdt in ('int64', 'uint16', 'uint32'):
+    if pdt in ('int64', 'uint16', 'uint32', 'int16'):
         ipos = np.round(g.pos * 4).astype(np.int64)     # integer coordinates (e.g. in um / 4)
-        if len(set(map(tuple, ipos))) == nc and ipos.min() >= 0 and ipos.max() < 60000:
+        if len(set(map(tuple, ipos))) == nc and ipos.min() >= 0 and \
+                ipos.max() < (30000 if pdt == 'int16' else 60000):
             g.pos = ipos.astype(np.float64)
             g.pos_dtype = pdt
     elif pdt == 'float32':
@@ -344,6 +348,9 @@ def build_gt(cfg):
     g.wmi_file = None
     if p['wmi']:
         g.wmi_file = np.linalg.inv(g.wm) * (1.0 + 0.0)
+    elif g.wm is None and cfg.get('wmi_only'):
+        # only the INVERSE whitening matrix is there (no whitening_mat.npy)
+        g.wmi_file = np.eye(nc) + 0.2 * rs.normal(size=(nc, nc))
     g.similar = np.round(rs.uniform(0, 1, size=(nt, nt)), 4) if p['similar'] else None
     # features
     if p['features']:
@@ -355,6 +362,8 @@ def build_gt(cfg):
             g.pc_ind[t] = rs.permutation(nc)[:nloc_f]
         if p['feature_rows']:
             k = rs.randint(2, ns + 1)
+            if cfg.get('feat_rows_complete'):
+                k = ns       # a row table that lists every spike
             g.feat_rows = np.sort(rs.permutation(ns)[:k]).astype(np.int64)
         else:
             g.feat_rows = None
@@ -551,12 +560,13 @@ def write_dataset(cfg, g, d):
         save(_name(cfg, 'chprobe'), g.probes.astype('int32'))
     if p['shanks']:
         save(_name(cfg, 'chshank'), g.shanks.astype('int32'))
-    save(_name(cfg, 'tmpl'), g.tmpl_data)
+    save(_name(cfg, 'tmpl'), np.asfortranarray(g.tmpl_data) if cfg.get('tmpl_fortran')
+         else g.tmpl_data)     # (MATLAB sorters write column-major .npy files)
     if cfg['sparse']:
         save(_name(cfg, 'tmplind'), g.tmpl_cols.astype('int32'))
     if p['wm']:
         save('whitening_mat.npy', g.wm.astype(getattr(g, 'wm_dtype', 'float64')))
-    if p['wmi']:
+    if p['wmi'] or (g.wmi_file is not None and cfg.get('wmi_only')):
         save('whitening_mat_inv.npy', g.wmi_file)
     if p['similar']:
         save('similar_templates.npy', g.similar.astype('float32') if cfg['seed'] % 2 else g.similar)
@@ -619,7 +629,9 @@ def write_dataset(cfg, g, d):
         cuts = [n] if r['n_files'] == 1 else [n // 2, n - n // 2]
         i = 0
         for k, m in enumerate(cuts):
-            name = 'raw%d%s' % (k, r['ext'])
+            # (the listed order need not be the lexicographic order of the names)
+            name = ('raw_t%d%s' % (k + 9, r['ext']) if r.get('naming') == 'unpadded'
+                    else 'raw%d%s' % (k, r['ext']))
             with open(d / name, 'wb') as f:
                 f.write(b'\x07' * r['offset'])
                 f.write(np.ascontiguousarray(g.raw[i:i + m]).tobytes())
